@@ -128,3 +128,38 @@ Theorem C13_canonical_known :
                         end) fn_table = true.
 Proof. exact canonical_known. Qed.
 Print Assumptions C13_canonical_known.
+
+(* the regular-expression cache is transparent: for every history of patterns and every capacity the results are those of compiling each pattern afresh *)
+From Jawk Require Import RegexCache MiscProofs.
+
+Theorem C13_cache_transparent :
+  forall (R : Type) (compile : Base.str -> R) (cap : nat) (ps : list Base.str),
+    fst (run_history R compile cap nil ps) = List.map compile ps.
+Proof. exact CacheTransparent.history_transparent. Qed.
+Print Assumptions C13_cache_transparent.
+
+Theorem C13_cache_size_irrelevant :
+  forall (R : Type) (compile : Base.str -> R) (cap1 cap2 : nat) (c1 c2 : cache R) (ps : list Base.str),
+    CacheTransparent.sound R compile c1 ->
+    CacheTransparent.sound R compile c2 ->
+    fst (run_history R compile cap1 c1 ps) = fst (run_history R compile cap2 c2 ps).
+Proof. exact CacheTransparent.history_cap_irrelevant. Qed.
+Print Assumptions C13_cache_size_irrelevant.
+
+Theorem C13_cache_step :
+  forall (R : Type) (compile : Base.str -> R) (cap : nat) (c : cache R) (p : Base.str),
+    CacheTransparent.sound R compile c -> fst (compile_regex R compile cap c p) = compile p.
+Proof. exact CacheTransparent.cache_transparent. Qed.
+Print Assumptions C13_cache_step.
+
+Theorem C13_cache_bounded :
+  forall (R : Type) (compile : Base.str -> R) (cap : nat) (ps : list Base.str),
+    length (snd (run_history R compile cap nil ps)) <= cap.
+Proof. exact CacheTransparent.history_length. Qed.
+Print Assumptions C13_cache_bounded.
+
+Theorem C13_cache_distinct :
+  forall (R : Type) (compile : Base.str -> R) (cap : nat) (ps : list Base.str),
+    CacheTransparent.distinct R (snd (run_history R compile cap nil ps)).
+Proof. exact CacheTransparent.history_distinct. Qed.
+Print Assumptions C13_cache_distinct.
